@@ -314,6 +314,16 @@ func DialContext(ctx context.Context, network, address string) (net.Conn, error)
 	return n.dial(ctx, address, false)
 }
 
+// ReplaceDial is what the instrumenter wraps around a dialer the code under test configures itself: the dialer is
+// evaluated and dropped, connections go through the in-memory network.
+func ReplaceDial[T any](_ T) func(ctx context.Context, network, address string) (net.Conn, error) {
+	return DialContext
+}
+
+// ProbeUserAgent, when set by the harness, marks health probes that do not come through the default HTTP client
+// (whose transport the harness owns): a connection whose first request carries it is served as a scripted probe.
+var ProbeUserAgent string
+
 func DialProbe(ctx context.Context, network, address string) (net.Conn, error) {
 	n := cur.Load()
 	if n == nil {
